@@ -733,6 +733,63 @@ theorem reload_persist_id_alias_old_counterexample :
   have h1 := (h [.add 0 [105] [97]] 0 [97] [105]).2 (by unfold memView; decide)
   revert h1; unfold memView; decide
 
+/-- The ES `_aliases` request (patches c20-20 / c20-21): whatever the actions, the state after a request
+is the state after a sequence of add / remove operations — the flattened actions up to and including the
+first refused one.  So every state reachable through requests is reachable through operations, and all
+theorems about operation sequences (refinement, restart identity, tenant frame) cover it. -/
+theorem alias_request_is_run (ops : List Op) (t : Nat) (acts : List Act) :
+    ∃ ops', (post (run init ops).1 t acts).1 = (run init ops').1 :=
+  ⟨ops ++ executed (run init ops).1 (acts.flatMap (actOps t)), by
+    rw [Lemmas.C20K.Alias.run_append]; exact Lemmas.C20K.Alias.post_is_run _ _⟩
+
+/-- acknowledged ⇒ stored: an acknowledged request held no unreadable action and EVERY operation of EVERY
+action (each index of an `indices` list included) was executed and answered ok. -/
+theorem alias_request_acknowledged_all_applied (st : St) (t : Nat) (acts : List Act)
+    (h : (post st t acts).2 = true) :
+    Act.refuse ∉ acts ∧
+    executed st (acts.flatMap (actOps t)) = (acts.flatMap (actOps t)).filterMap id ∧
+    (post st t acts).1 = (run st ((acts.flatMap (actOps t)).filterMap id)).1 := by
+  obtain ⟨h1, h2⟩ := Lemmas.C20K.Alias.post_ack _ st h
+  refine ⟨?_, h2, ?_⟩
+  · intro hm
+    apply h1
+    simp only [List.mem_flatMap]
+    exact ⟨.refuse, hm, by simp [actOps]⟩
+  · rw [← h2]; exact Lemmas.C20K.Alias.post_is_run _ _
+
+/-- a refused action is never acknowledged. -/
+theorem alias_request_refused_not_acknowledged (st : St) (t : Nat) (acts : List Act) (h : Act.refuse ∈ acts) :
+    (post st t acts).2 = false := by
+  cases hk : (post st t acts).2 with
+  | false => rfl
+  | true => exact absurd h (alias_request_acknowledged_all_applied st t acts hk).1
+
+/-- OLD behaviour (before patch c20-20) REFUTED: an add action in the `indices` form was acknowledged and
+stored nothing. -/
+theorem alias_request_old_counterexample_indices :
+    ¬ (∀ (st : St) (t : Nat) (acts : List Act), (postOld st t acts).2 = true →
+        (postOld st t acts).1 = (run st ((acts.flatMap (actOps t)).filterMap id)).1) := by
+  intro h
+  have h1 := congrArg (fun s => abs s 0 [105]) (h init 0 [.addMany [[105], [106]] [97]] rfl)
+  revert h1; decide
+
+/-- OLD behaviour (before patch c20-21) REFUTED: a request with an action the handler could not read (or
+refused) was answered `acknowledged`. -/
+theorem alias_request_old_counterexample_refused :
+    ¬ (∀ (st : St) (t : Nat) (acts : List Act), Act.refuse ∈ acts → (postOld st t acts).2 = false) := by
+  intro h
+  have h1 := h init 0 [.refuse] (by simp)
+  revert h1; decide
+
+example : -- non-vacuous: index and indices forms, an invalid name stops the request after the first index of the list
+    ((post init 0 [.add [105] [97], .addMany [[105], [106]] [98]]).2,
+     (step (post init 0 [.add [105] [97], .addMany [[105], [106]] [98]]).1 (.list 0)).2,
+     (post init 0 [.addMany [[105], [46], [106]] [97], .add [107] [97]]).2,
+     (step (post init 0 [.addMany [[105], [46], [106]] [97], .add [107] [97]]).1 (.list 0)).2,
+     (post init 0 [.add [105] [97], .refuse, .add [106] [97]]).2,
+     (post init 0 [.remove [105] [97]]).2) =
+    (true, .amap [([97], [[105]]), ([98], [[105], [106]])], false, .amap [([97], [[105]])], false, false) := by decide
+
 /-- C20.K3 (aliases): an operation of tenant `t` changes neither the alias files nor the memory view of
 any other tenant — in ANY state (the maps are keyed by org; nothing is shared). -/
 theorem tenant_frame_alias (st : St) (op : Op) (t : Nat) (ht : op.tenant = some t) (t' : Nat) (hne : t' ≠ t) :
